@@ -305,3 +305,32 @@ def some_edge_targets(body, head_bb):
                 if "Some" in ls:
                     out.append(tgt)
     return out
+
+
+# ---------------------------------------------------------------------------- parameters / fields by role, not by name
+def arg_of_type(body, pat, nth=0):
+    """index of the nth parameter whose declared type matches regex `pat` (fail closed)"""
+    hits = [i for i in range(1, body.argc + 1) if re.search(pat, body.locals[i])]
+    if len(hits) <= nth:
+        raise mir.RuleError("no parameter of type /%s/ (#%d) in %s" % (pat, nth, body.npath))
+    return hits[nth]
+
+
+def argname(body, idx):
+    """how render() prints parameter idx"""
+    return body.names.get(idx) or ("arg%d" % idx)
+
+
+def is_arg(e, idx):
+    return e[0] == "arg" and e[1] == idx
+
+
+def refusal_inserts(body, head_bb):
+    """HashSet::insert(<local accumulator>, clone(<element of the loop headed at head_bb>)) — handle_graft's queue of topics to
+    answer with PRUNE, identified by shape (a local set that receives the loop's topic), not by its name"""
+    out = []
+    for s in body.call_sites(r"HashSet::insert$"):
+        e = body.site_expr(s)
+        if e[2][0][0] == "local" and next_call_bb(e[2][1]) == head_bb and has_call(e[2][1], r"Clone>::clone$|Clone::clone$"):
+            out.append(s)
+    return out
